@@ -72,6 +72,10 @@ func (l *Life) EngineFailures(class string, tag string) {
 	var batches [][]Doc
 	if class == "ivf" {
 		batches = [][]Doc{vecBatch(l, 620, 0, "v2", 2), vecBatch(l, 560, 1000, "v2", 2)}
+	} else if class == "big" {
+		// a merge of several thousand vectors: whatever the merger does piecewise (batched adds, batched
+		// reconstruction) makes more than one engine call, and each of them is failed in turn
+		batches = [][]Doc{vecBatch(l, 2600, 0, "v2", 2), vecBatch(l, 2650, 5000, "v2", 2)}
 	} else {
 		p := VecProfile()
 		p.MinDocs = 3
@@ -79,7 +83,7 @@ func (l *Life) EngineFailures(class string, tag string) {
 	}
 	// ---- builds
 	for bi, b := range batches {
-		if class == "ivf" && bi > 0 {
+		if class == "big" || (class == "ivf" && bi > 0) {
 			break
 		}
 		if class == "ivf" {
@@ -130,7 +134,7 @@ func (l *Life) EngineFailures(class string, tag string) {
 	drops := make([]Drop, len(ins))
 	for i := range drops {
 		drops[i] = Drop{Nil: true, Ds: Ints{}}
-		if i > 0 && class != "ivf" {
+		if i > 0 && class == "flat" {
 			drops[i] = randDrop(l.r, ins[i].ndocs)
 		}
 	}
